@@ -432,7 +432,45 @@ fn scenario_c16(scratch: PathBuf, found: Found, seed: u64) {
 fn scenario_c17(scratch: PathBuf, found: Found, seed: u64) {
     sim::clock::set(1_760_000_000);
     let env = Arc::new(HistEnv::new(&scratch));
-    let _ = seed;
+    if seed % 4 == 0 {
+        // A lagging client after changes that cancel each other out: the
+        // served version differs from the presented one, so the request
+        // must be answered although nothing else will ever happen (were it
+        // to wait, all tasks are blocked: reported as a lost wake-up).
+        let mut rng = Rng::new(seed);
+        env.update(DATA[0]);
+        let (session, serial0) = {
+            let read = env.history.read();
+            (read.session(), u32::from(read.serial()))
+        };
+        let flips = 1 + rng.usize(2);
+        for _ in 0..flips {
+            sim::clock::advance(3);
+            env.update(DATA[1]);
+            sim::clock::advance(3);
+            env.update(DATA[0]);
+        }
+        let serial_now = u32::from(env.history.read().serial());
+        let lag = *rng.pick(&[2u32, 2, 4]).min(&(serial_now.wrapping_sub(serial0)));
+        let presented = serial_now.wrapping_sub(lag);
+        let client = {
+            let env = env.clone();
+            let found = found.clone();
+            shuttle::thread::spawn(move || {
+                let (status, _, _) = env.get(&format!(
+                    "/json-delta/notify?session={session}&serial={presented}"
+                ), &[]);
+                if status != 200 {
+                    found.lock().unwrap().push((
+                        "wrong-answer".into(),
+                        format!("notify returned {status}")
+                    ));
+                }
+            })
+        };
+        client.join().unwrap();
+        return
+    }
     env.update(DATA[0]);
     let (session, serial0) = {
         let read = env.history.read();
@@ -594,6 +632,7 @@ fn scenario_c37(scratch: PathBuf, found: Found, seed: u64) {
             rpki_notify: (use_rrdp && i < 2).then(|| rrdp.notify_uri()),
             ca_issuer: String::new(),
             crl_uri: String::new(),
+            same_name: false,
         };
         let bytes = pki::make_ca_cert(&spec);
         let cert = Cert::decode(bytes).unwrap().validate_ta(
